@@ -22,6 +22,8 @@ def schedule(kind, n, p_i):
         return np.full(n, 0.35 * p_i)
     if kind == "stepwise":
         return np.where(k < n // 3, 0.7 * p_i, np.where(k < 2 * n // 3, 0.45 * p_i, 0.2 * p_i)).astype(float)
+    if kind == "buildup":  # drawdown, then a late shut-in build-up: the highest pressure is NOT the first sample
+        return np.where(k < 2 * n // 3, 0.35 * p_i, 0.8 * p_i).astype(float)
     return np.linspace(0.9 * p_i, 0.15 * p_i, n)  # ramp
 
 
@@ -36,35 +38,52 @@ def forward(pvt, days, tau, p_i, sched, nx):
 
 
 class Recorder:
-    """Harness-side interception of the names forecast_pressure looks up at call time."""
+    """Harness-side observation of what the fit hands to its minimiser and which node count the objective uses.
+    Patched at the class level (lmfit's Minimizer.__init__ and SinglePhaseReservoir.__init__ themselves), so it does
+    not depend on the names through which forecast_pressure reaches them (Minimizer, lmfit.minimize, an alias ...)."""
 
     def __init__(self):
         self.nx, self.mini = [], []
 
     def __enter__(self):
-        from bluebonnet.forecast import forecast_pressure as fpm  # noqa: PLC0415
+        import lmfit.minimizer as lm  # noqa: PLC0415
 
-        self.mod = fpm
-        self.saved = (fpm.SinglePhaseReservoir, fpm.Minimizer)
+        from bluebonnet.flow import SinglePhaseReservoir  # noqa: PLC0415
+
         rec = self
+        self.saved = (lm.Minimizer.__init__, SinglePhaseReservoir.__init__, lm, SinglePhaseReservoir)
+        m_init, r_init = lm.Minimizer.__init__, SinglePhaseReservoir.__init__
 
-        class Res(fpm.SinglePhaseReservoir):
-            def __init__(self, nx, *a, **k):
-                rec.nx.append(nx)
-                super().__init__(nx, *a, **k)
+        def mini_init(this, userfcn, params, fcn_args=None, fcn_kws=None, *a, **k):
+            rec.mini.append({"params": {n: (p.value, p.min, p.max) for n, p in params.items()},
+                             "fcn": userfcn, "fcn_args": fcn_args, "fcn_kws": fcn_kws})
+            return m_init(this, userfcn, params, fcn_args, fcn_kws, *a, **k)
 
-        class Mini(fpm.Minimizer):
-            def __init__(self, fcn, params, fcn_args=None, **k):
-                rec.mini.append({"params": {n: (p.value, p.min, p.max) for n, p in params.items()},
-                                 "fcn_args": fcn_args})
-                super().__init__(fcn, params, fcn_args=fcn_args, **k)
+        def res_init(this, nx, *a, **k):
+            rec.nx.append(nx)
+            return r_init(this, nx, *a, **k)
 
-        fpm.SinglePhaseReservoir, fpm.Minimizer = Res, Mini
+        lm.Minimizer.__init__ = mini_init
+        SinglePhaseReservoir.__init__ = res_init
         return self
 
     def __exit__(self, *exc):
-        self.mod.SinglePhaseReservoir, self.mod.Minimizer = self.saved
+        m_init, r_init, lm, cls = self.saved
+        lm.Minimizer.__init__ = m_init
+        cls.__init__ = r_init
         return False
+
+
+def unpack_args(cap):
+    """(days, cumulative production, frac-face pressures) among whatever was handed to the objective, positionally
+    or by keyword: the three equally long 1-D arrays, in that order (the table is the DataFrame)."""
+    import pandas as pd  # noqa: PLC0415
+
+    vals = list(cap["fcn_args"] or ()) + list((cap["fcn_kws"] or {}).values())
+    arrs = [np.asarray(v) for v in vals if not isinstance(v, (pd.DataFrame, dict)) and np.ndim(v) == 1]
+    if len(arrs) != 3 or len({len(a) for a in arrs}) != 1:
+        raise ValueError(f"cannot identify days / cumulative / pressure among the objective's arguments ({len(arrs)} arrays)")
+    return arrs
 
 
 def eval_objective(case):
@@ -86,7 +105,7 @@ def eval_objective(case):
         zero = np.zeros(n)
         base = np.asarray(fpm._obj_function(prm, days, zero, pvt, sched), dtype=float)  # = M * rf
         # history: same parameters, same table object, same days - another pressure history
-        sched_b = schedule({"constant": "ramp", "stepwise": "constant", "ramp": "stepwise"}[case["sched"]], n, p_i)
+        sched_b = schedule({"constant": "ramp", "stepwise": "constant", "ramp": "stepwise", "buildup": "ramp"}[case["sched"]], n, p_i)
         other = np.asarray(fpm._obj_function(prm, days, zero, pvt, sched_b), dtype=float)
     nx = rec.nx[-1] if rec.nx else 80
     rf_b = forward(pvt, days, tau, p_i, sched_b, nx)
@@ -142,7 +161,12 @@ def eval_fit(case):
         gas[[5, 11, n // 2]] = 0.0          # zero-rate days
         press[[7, n // 2 + 3]] = np.nan     # missing pressures
         gas[3] = -1.0                        # a negative correction counts as 'no production'
+        gas[9] = np.nan                      # a missing rate as well
     prod = pd.DataFrame({"Days": days * 1.0, "Gas": gas, "Pressure": press, "Other": np.arange(n)})  # day 0 produces
+    if case.get("index") == "offset":        # a table cut out of a longer history: labels 100, 101, ...
+        prod.index = np.arange(n) + 100
+    elif case.get("index") == "dup":         # two files concatenated: labels 0..k-1 twice
+        prod.index = np.concatenate([np.arange(n // 2), np.arange(n - n // 2)])
     snap = prod.copy(deep=True)
     viol = []
     with Recorder() as rec, warnings.catch_warnings():
@@ -171,8 +195,7 @@ def eval_fit(case):
     if not rec.mini:
         return {"violations": viol + [V("fit/minimizer-not-observed", "no Minimizer was constructed", case=case)]}
     cap = rec.mini[-1]
-    t_used, cum_used, _, p_used = cap["fcn_args"]
-    t_used, cum_used, p_used = (np.asarray(x) for x in (t_used, cum_used, p_used))
+    t_used, cum_used, p_used = unpack_args(cap)
     keep = (gas > 0) & ~np.isnan(press) if case["filter"] else np.ones(n, dtype=bool)
     want_p = press[keep]
     if case["window"] is not None and case["window"] > 1:
@@ -209,7 +232,8 @@ def eval_fit(case):
                           f"{pmax_sched}, stated maximum 12000", case=case))
     if "M" in lim:
         _, lo, hi = lim["M"]
-        if not (cum_used[-2] * (1 - 1e-12) <= lo <= cum_used[-1] * (1 + 1e-12) and hi == 1e6):
+        c_lo, c_hi = sorted((float(cum_used[-2]), float(cum_used[-1])))  # (a build-up can take production back)
+        if not (c_lo * (1 - 1e-12) <= lo <= c_hi * (1 + 1e-12) and hi == 1e6):
             viol.append(V("limits/M", f"M limits [{lo}, {hi}]: the lower one is not the production already recorded "
                           f"({cum_used[-2]} .. {cum_used[-1]}) or the upper one is not inplace_max=1e6", case=case))
     for name in ("tau", "M", "p_initial"):
@@ -225,6 +249,15 @@ def eval_fit(case):
     res = np.asarray(result.residual, dtype=float)
     if res.shape != (int(keep.sum()),) or not np.all(np.isfinite(res)):
         viol.append(V("fit/residual", f"residual shape {res.shape}, finite {bool(np.all(np.isfinite(res)))}", case=case))
+    elif not viol:
+        # what is minimised IS the stated objective: the residual reported at the fitted parameters equals
+        # M x (library recovery factor for the fitted tau / p_initial and the pressures used) - cumulative production
+        nx = rec.nx[-1] if rec.nx else 80
+        tf, Mf = float(result.params["tau"].value), float(result.params["M"].value)
+        want_res = Mf * forward(pvt, np.asarray(t_used, dtype=float), tf, p_fit, np.asarray(p_used, dtype=float), nx) - cum_used
+        if not np.all(np.abs(res - want_res) <= 1e-8 * max(Mf, float(np.abs(cum_used).max()))):
+            viol.append(V("fit/objective-minimised", "the residual the minimiser reports at the fitted parameters is not M x "
+                          f"recovery factor - cumulative production (max diff {np.max(np.abs(res - want_res)):.3g})", case=case))
     return {"violations": viol[:3], "outcome": f"fit:{'f' if case['filter'] else 'n'}:{case['window']}",
             "key": ("f", n, tau, M, p_i, case["sched"], case["filter"], case["window"], case["n_iter"], dirty, case.get("guess"))}
 
@@ -238,7 +271,7 @@ def cases(tier, seed):
     taus, Ms, pis = [60.0, 180.0], [1e3, 5e4], [6000.0, 9000.0]
     # last one: an initial pressure a few parts per million away from the previous call's (a simplex that has
     # contracted, a refit with a refined pressure) - must be evaluated at ITS pressure, not the neighbour's
-    devs = [(1.0, 1.0, 1.0), (1.3, 0.8, 1.05), (0.6, 2.0, 1.0), (1.0, 1.0, 1.000004)]
+    devs = [(1.0, 1.0, 1.0), (1.3, 0.8, 1.05), (0.6, 2.0, 1.0), (1.0, 1.0, 1.000004), (1.000004, 1.0, 1.0), (1.0, 1.000004, 1.0)]
     if seed:
         o = seed_offset(seed)
         taus.append(round(40 + 200 * o, 1))
@@ -257,6 +290,12 @@ def cases(tier, seed):
             out += [dict(out[-1], guess="below"), dict(out[-1], guess="above")]
             if flt:
                 out.append(dict(out[-1], guess="inside", params=True, n_iter=12))
+    # a late build-up (the highest frac-face pressure is not the first sample), with and without smoothing; production
+    # tables whose index is not 0..n-1 (a slice of a longer history, two files concatenated)
+    for tau, flt, w, idx in itertools.product(taus[:2], [True, False], [None, 3], [None, "offset", "dup"]):
+        out.append({"kind": "fit", "tau": tau, "M": 1e3, "p_i": 6000.0, "sched": "buildup", "n": 40, "filter": flt, "window": w,
+                    "n_iter": 4, "dirty": bool(flt), "index": idx, "guess": "below" if idx is None else "inside"})
+    out += [{"kind": "objective", "tau": 60.0, "M": 1e3, "p_i": 6000.0, "sched": "buildup", "n": 40, "dev": list(d)} for d in devs[:3]]
     return out
 
 
